@@ -575,10 +575,15 @@ func (s *st) dirRecv() {
 	for _, op := range []string{"Add", "Sub", "Mul", "MulRelin"} {
 		isMul := op == "Mul" || op == "MulRelin"
 		for _, bk := range []string{"ct", "ct-uneq", "pt", "int", "frac", "vec", "d2+int", "d2+ct"} {
-			for _, mode := range []string{"large", "small"} {
+			for _, mode := range []string{"large", "small", "deg0"} {
 				d2 := bk == "d2+int" || bk == "d2+ct"
 				wantDeg2 := d2 || (op == "Mul" && (bk == "ct" || bk == "ct-uneq"))
-				if (mode == "small") != wantDeg2 || (d2 && isMul) || (s.cfg.LogN >= 8 && r.N(2) == 0) {
+				if mode == "deg0" {
+					// every result shape, one call in three
+					if (d2 && isMul) || r.N(3) != 0 {
+						continue
+					}
+				} else if (mode == "small") != wantDeg2 || (d2 && isMul) || (s.cfg.LogN >= 8 && r.N(2) == 0) {
 					continue
 				}
 				lvl := s.randLevel(s.lcpr)
